@@ -383,6 +383,22 @@ def gen_request_case(g, tier, focus=None, c17=None):
         else:
             user, host = g.pick(["", "zed"]), g.pick(["foreign.example.org", "10.20.30.40", "svc.testx"])
             ru = sip_uri_text(g, user, host)
+        if kind == "sip" and g.chance(0.25):
+            # legal spellings that do not take part in routing and must be handed on as they are
+            deco = g.pick(["pw", "emptypw", "hdr", "hdr-empty", "zero-port", "params"])
+            if deco == "pw" and user:
+                ru = ru.replace(user + "@", user + ":p%40w@", 1)
+            elif deco == "emptypw" and user:
+                ru = ru.replace(user + "@", user + ":@", 1)
+            elif deco == "hdr":
+                ru += "?subject=a%20b&x=1"
+            elif deco == "hdr-empty":
+                ru += "?x="
+            elif deco == "zero-port":
+                ru = re.sub(r"^(sips?:[^;?]*?):(\d+)", lambda m: m.group(1) + ":0" + m.group(2), ru, count=1)
+            elif deco == "params":
+                ru += g.pick([";x", ";x=1;y", ";lr", ";maddr=10.1.1.1"]) if "?" not in ru else ""
+            g.count("ruri_deco_" + deco)
         lit, rx = w.service_match(kind, user, host, port, whole, lst)
         # ---- To host -> static route ----
         to_host = g.pick(["dest.test", "dest.test", "a.wild.test", "b.c.wild.test", "nowhere.test", "svc.test", "wild.test"])
